@@ -51,6 +51,24 @@ def run_pls(ck, rng, tier, which):
         xs, ys = rng.choice((-1, 0, 1, 2, 3, 4, 5)), rng.choice((-1, 0, 0, 1, 2, 3, 4, 5))
         noise = rng.choice((0.0, 0.05, 0.5, 3.0))
         X, Y = gen_xy(rng, n, m, ny, noise)
+        # corners of the domain that random unit-scale data never reach: descriptors / responses in
+        # small units (with no or centring-only scaling nothing rescales them) and nearly collinear descriptors
+        corner = c % 8
+        if corner == 1:
+            X, xs = X * 1e-6, rng.choice((-1, 0))
+        elif corner == 2 and m >= 2:
+            X[:, 1] = X[:, 0] + 1e-3 * X[:, 0].std() * np.array([rng.gauss(0, 1) for _ in range(n)])
+        elif corner == 3:
+            X[:, 0], xs = X[:, 0] * 1e-4, rng.choice((-1, 0))
+        elif corner == 4:
+            Y, ys = (Y - Y.mean(axis=0)) * 1e-3 / (np.abs(Y - Y.mean(axis=0)).max() + 1e-300) + Y.mean(axis=0) * 1e-3, rng.choice((-1, 0))
+        if corner in (1, 3, 4):
+            # stay clear of the known finding C10 MatrixColAverage/sum_inside_zero_window: a column whose
+            # sum lies inside (-1e-6, 1e-6) is not centred by the library
+            for M_ in (X, Y):
+                for j in range(M_.shape[1]):
+                    if abs(M_[:, j].sum()) < 1e-5:
+                        M_[:, j] += 3e-5
         Xc = c02.preprocess(X, xs)
         rank = int(np.linalg.matrix_rank(Xc, tol=1e-9 * max(1.0, np.abs(Xc).max())))
         if rank < 1:
